@@ -411,7 +411,15 @@ def run_json(ck: Check, prop_file: str, n_quick=(40, 4), n_thorough=(600, 8), tc
                 cases.append((s, vals, f"{origin}@{cc}{o}"))
                 jobs.append(pyside.make_job(ck, len(cases) - 1, s, vals, cc=cc, opt=o, rt_obj=rt_obj[(cc, o)]))
     t1 = _time.time()
-    results = run_workers("run_json.py", jobs, chunk=max(2, len(jobs) // 48), timeout=1200)
+    results = run_workers("run_json.py", jobs, chunk=max(2, len(jobs) // 48), timeout=3600)
+    # a toolchain / worker TIMEOUT is an artefact of machine load, not an observation of the
+    # implementation: such jobs are run once more, one at a time
+    again = [i for i, r in enumerate(results)
+             if "Timeout" in str(r.get("c_error", "")) + str(r.get("worker_error", "")) + str(r.get("compile_error", ""))
+             or "rc=124" in str(r.get("worker_error", ""))]
+    for i in again:
+        results[i] = run_workers("run_json.py", [jobs[i]], chunk=1, timeout=3600)[0]
+    timings["rerun_after_timeout"] = len(again)
     timings["implementation_s"] = round(_time.time() - t1, 1)
 
     sh = pyside.Shards(ck, ck.prop.lower(), per_shard=8)
